@@ -42,7 +42,11 @@ func subtractArray(lhs *CandidateNode, rhs *CandidateNode) []*CandidateNode {
 
 func subtract(_ *dataTreeNavigator, context Context, lhs *CandidateNode, rhs *CandidateNode) (*CandidateNode, error) {
 	if lhs.Tag == "!!null" {
-		return lhs.CopyAsReplacement(rhs), nil
+		if rhs.Tag == "!!null" {
+			return lhs.Copy(), nil
+		}
+		// (null - 1 used to be 1: the right operand, copied)
+		return nil, fmt.Errorf("%v (%v) cannot be subtracted from %v", rhs.Tag, rhs.GetNicePath(), lhs.Tag)
 	}
 
 	target := lhs.CopyWithoutContent()
